@@ -16,7 +16,16 @@ class Program:
         self.crates = []
         for p in paths:
             with open(p) as fh:
-                d = json.load(fh)
+                text = fh.read()
+            d = json.loads(text)
+            ren = d.get('renames') or {}
+            if ren:
+                # re-exported workspace items are printed under their visible path in dependent crates:
+                # rewrite them to the defining path so that anchors are the same in every export
+                import re as _re
+                pat = _re.compile('|'.join('(?<![A-Za-z0-9_:])%s(?![A-Za-z0-9_])' % _re.escape(k) for k in sorted(ren, key=len, reverse=True)))
+                text = pat.sub(lambda mo: ren[mo.group(0)], text)
+                d = json.loads(text)
             self.crates.append(d['crate'])
             self.cfg.append((d['crate'], d['cfg']))
             if d.get('truncated'):
